@@ -1273,6 +1273,8 @@ func runHuge(c HugeCase, o *vh.Obs) *vh.Failure {
 func TestC05(t *testing.T) {
 	vh.Drive(t, vh.Spec[WRCase]{Name: "write-read", Quick: 80000, Thorough: 2400000, Gen: genWR, Run: runWR})
 	vh.Drive(t, vh.Spec[RWCase]{Name: "read-write", Quick: 100000, Thorough: 3000000, Gen: genRW, Run: runRW})
+	vh.Drive(t, vh.Spec[vh.Conc[WRCase]]{Name: "concurrent-writers", Quick: 2000, Thorough: 60000, Gen: vh.GenConc(genWR), Run: vh.RunConc(runWR), Repeat: 20})
+	vh.Drive(t, vh.Spec[vh.Conc[RWCase]]{Name: "concurrent-readers", Quick: 2000, Thorough: 60000, Gen: vh.GenConc(genRW), Run: vh.RunConc(runRW), Repeat: 20})
 	// ~2.5 GB and ~10 s: a single case
 	vh.Enumerate(t, vh.Spec[HugeCase]{Name: "huge-mesh", Run: runHuge, Deadline: 10 * time.Minute}, hugeCases())
 }
